@@ -18,7 +18,8 @@ Positions == {"field", "slice", "array", "mapval", "mapkey", "named", "embedded"
 Spellings == {"oneletter", "oneletterunion", "shortpkg1", "shortpkg2", "groupedtype", "multiconst", "genericbasic",
               "constunderscore", "emptystruct", "unexportedonly", "enumunexported", "badplaceholder", "unknowncomment",
               "fixedarrayofslices", "ptrrecvmember", "dupnames", "keyword",
-              "selfslice", "selfmap", "unionlistmember", "mutualnamed", "aliaschain", "promotedmember"}
+              "selfslice", "selfmap", "unionlistmember", "mutualnamed", "aliaschain", "promotedmember",
+              "uniqueunknowncol", "selectkeyunknowncol", "primarykeyunknowncol", "foreignunknowntable", "queryunknowncol"}
 Targets == {"go/unions", "go/sqlcrud", "go/sqlcrud+sets", "go/randdata", "sql", "typescript/types", "typescript/api", "dart"}
 
 (* positions Go itself rejects for a form (not well-typed, hence outside the property) *)
